@@ -41,6 +41,16 @@ theorem reserved_covers_used : usedUnqualified.all (fun w => rootSeeded.contains
 theorem keywords_alone_miss_console :
     "console" ∈ usedUnqualified ∧ "console" ∉ reservedKeywords ∧ "console" ∈ rootSeeded := by decide
 
+/-- **escape_cutoff_is_loop_body** — `EscapingObjects` (compiler/internal/analysis/escape.go), which decides which captured /
+    address-taken variables an enclosing loop body must box (`x = [x]`) so that every iteration gets its own instance, stops
+    looking outwards at the scope of a nested loop's BODY — not at the scope of the whole `for` / `range` statement. The
+    header variables of a nested loop (for-init variable, range key / value) therefore belong to the ENCLOSING loop body and are
+    re-boxed each time the enclosing loop runs the nested statement again: one variable per execution of the statement
+    (Go ≤ 1.21 semantics), which is what the driver's reference semantics (`GV.Driver.C01`, kind-10 actions) implements and
+    the generated nested-capture programs observe. -/
+theorem escape_cutoff_is_loop_body :
+    escapeCutoffs = [("FuncLit", "n.Type"), ("ForStmt", "n.Body"), ("RangeStmt", "n.Body")] := by decide
+
 /-- the obligation is not vacuous -/
 example : "arguments" ∈ usedUnqualified ∧ "this" ∈ usedUnqualified ∧ "undefined" ∈ usedUnqualified ∧
     "Uint8Array" ∈ usedUnqualified := by decide
